@@ -63,6 +63,8 @@ def _arg_char(arg):
     """Model of a constructor argument: returns the character or raises ModelExc."""
     if isinstance(arg, list) and arg and arg[0] == "tok":
         return TOKENS[arg[1]]
+    if isinstance(arg, list):
+        raise ModelExc("InvalidArgumentTypeException")
     if isinstance(arg, str):
         if len(arg) != 1:
             raise ModelExc("InvalidArgumentTypeException")
@@ -70,9 +72,12 @@ def _arg_char(arg):
     raise ModelExc("InvalidArgumentTypeException")
 
 
-def model_eval(r):
-    """Returns ("cls", S, neg, tag) | ("chr", c) | ("tok", c); raises ModelExc."""
+def model_eval(r, pool=None):
+    """Returns ("cls", S, neg, tag) | ("chr", c) | ("tok", c); raises ModelExc.
+    pool: model values of earlier let-bindings, for ["ref", k]."""
     op = r[0]
+    if op == "ref":
+        return pool[r[1]]
     if op == "chr":
         return ("chr", r[1])
     if op == "tok":
@@ -96,12 +101,12 @@ def model_eval(r):
             raise ModelExc("InvalidRangeException")
         return ("cls", iv.norm([(ord(a), ord(b))]), op == "AnyButBetween", None)
     if op == "inv":
-        x = model_eval(r[1])
+        x = model_eval(r[1], pool)
         if x[3] == "any":
             raise ModelExc("CannotBeNegatedException")
         return ("cls", x[1], not x[2], x[3] if x[3] == "gword" else None)
     if op in ("or", "sub"):
-        x, y = model_eval(r[1]), model_eval(r[2])
+        x, y = model_eval(r[1], pool), model_eval(r[2], pool)
         exc = "CannotBeUnionedException" if op == "or" else "CannotBeSubtractedException"
         # which operand is "self" for the conversion rule
         if x[0] == "cls":
@@ -144,6 +149,8 @@ def uses_gword(r):
         return True
     if r[0] in ("or", "sub", "inv"):
         return any(uses_gword(x) for x in r[1:])
+    if r[0] == "ref":
+        return True        # conservative: a shared operand may be a global word class
     return False
 
 
@@ -180,7 +187,22 @@ def build_class(r, ns):
     raise ValueError("unknown class recipe %r" % (r,))
 
 
+_MS_CACHE = {}
+SCANS = [0]
+
+
 def matched_set(pattern, re_mod=re):
+    """Cached front end of _matched_set (a pure function of the pattern text)."""
+    hit = _MS_CACHE.get(pattern)
+    if hit is None:
+        if len(_MS_CACHE) > 4000:
+            _MS_CACHE.clear()
+        hit = _MS_CACHE[pattern] = _matched_set(pattern, re_mod)
+        SCANS[0] += 1
+    return hit
+
+
+def _matched_set(pattern, re_mod=re):
     """Interval set of the code points c such that `pattern` matches the one-char string c.
 
     Also verifies that the pattern is a single one-character atom (so that every match
@@ -239,17 +261,18 @@ def own_exception(e):
     return type(e).__module__.endswith("pregex.core.exceptions")
 
 
-def compare(recipe, ns, re_mod=re):
+def compare(recipe, ns, re_mod=re, pool=None, mpool=None, out=None):
     """Evaluates recipe in model and implementation.  Returns a dict:
        {"outcome": <str>, "ok": bool, "rule": <str|None>, "detail": <str>, "pattern": <str|None>}
     outcome is a configuration-independent summary (exception name or matched-set digest)."""
     try:
-        mv = model_eval(recipe)
+        mv = model_eval(recipe, mpool)
         mexc = None
     except ModelExc as e:
         mv, mexc = None, e.name
+    from . import recipes
     try:
-        obj = build_class(recipe, ns)
+        obj = recipes.build(recipe, ns, pool)
         iexc = None
     except RecursionError as e:
         obj, iexc = None, e
@@ -264,9 +287,11 @@ def compare(recipe, ns, re_mod=re):
                     "detail": "model expects %s, implementation raised %s: %s" % (mexc, name, str(iexc)[:120]),
                     "pattern": None}
         return {"outcome": "exc:" + name, "ok": False, "rule": "unexpected_exception",
-                "detail": "model expects a class %s, implementation raised %s: %s"
-                          % (iv.show(model_matched(mv)), name, str(iexc)[:120]), "pattern": None}
+                "detail": "model expects a class, implementation raised %s: %s" % (name, str(iexc)[:160]),
+                "pattern": None}
     pattern = str(obj)
+    if out is not None:
+        out["obj"], out["model"] = obj, mv
     if mexc is not None:
         return {"outcome": "pat", "ok": False, "rule": "missing_exception",
                 "detail": "model expects %s, implementation returned %r" % (mexc, pattern), "pattern": pattern}
@@ -276,7 +301,7 @@ def compare(recipe, ns, re_mod=re):
                 "detail": "emitted %r: %s" % (pattern, problem), "pattern": pattern}
     if problem:
         return {"outcome": "notclass", "ok": False, "rule": "not_a_class", "detail": problem, "pattern": pattern}
-    want = model_matched(mv)
+    want = model_matched(mv) if mv[0] == "cls" else iv.from_points([ord(mv[1])])
     diff = iv.difference(iv.symdiff(s, want), zone_for(pattern, uses_gword(recipe)))
     out = "set:%d:%s" % (iv.size(s), hash_intervals(s))
     if diff:
